@@ -23,4 +23,90 @@ package interp
 //@   ensures complex128-parts-rounded-once: v.IsValid() && assertok_go_constant_Value(rvIface(v)) && k == reflect.Complex128 ==> err == nil && rvKind(r) == reflect.Complex128 && rvComplex(r) == croundKind(reflect.Complex128, ccomplex(constF64(constReal(c)), constF64(constImag(c))))
 //@   ensures bool-string-exact: v.IsValid() && assertok_go_constant_Value(rvIface(v)) ==> (k == reflect.Bool ==> rvBool(r) == constBoolVal(c)) && (k == reflect.String ==> rvString(r) == constStringVal(c))
 //@   ensures other-kinds-rejected: v.IsValid() && assertok_go_constant_Value(rvIface(v)) && !(k == reflect.Bool || k == reflect.String || isIntKind(k) || k == reflect.Float32 || k == reflect.Float64 || k == reflect.Complex64 || k == reflect.Complex128) ==> err != nil
-//@   canary v.IsValid() && assertok_go_constant_Value(rvIface(v)) && k == reflect.Float32 ==> rvFloat(r) == roundKind(reflect.Float32, constF64(constToFloat(c)))
+//@   canary v.IsValid() && assertok_go_constant_Value(rvIface(v)) && k == reflect.Float32 ==> rvFloat(r) == constF64(constToFloat(c))
+
+// convertConstantValue (run.go): the constant held by a node is materialised in the node's type when
+// the node is used as a run-time operand (return values, call arguments, ...).  The same rules: the
+// exact value, rounded once to the target precision; a constant that the target type can hold is
+// never refused (an integer constant beyond int64 is fine for uint64 and for every float and complex
+// type); a float constant converts to a complex target.
+//@ func convertConstantValue(n)
+//@   props C03
+//@   ints math
+//@   requires [assume] n != nil && n.typ != nil
+//@   let c: assert_go_constant_Value(rvIface(n.rval))
+//@   let isC: n.rval.IsValid() && assertok_go_constant_Value(rvIface(n.rval))
+//@   let k: n.typ.TypeOf().Kind()
+//@   panics when isC && constKind(c) == 3 && !inRangeK(6, constInt(c)) && !(isUnsignedKind(k) && inRangeK(k, constInt(c))) && !isFloatKind(k) && !isComplexKind(k)
+//@   ensures float32-rounded-once: isC && constKind(c) == 4 && k == reflect.Float32 ==> rvFloat(n.rval) == constF32(c)
+//@   ensures float64-rounded-once: isC && constKind(c) == 4 && k == reflect.Float64 ==> rvFloat(n.rval) == constF64(c)
+//@   ensures complex64-parts-rounded-once: isC && constKind(c) == 5 && k == reflect.Complex64 ==> rvComplex(n.rval) == croundKind(reflect.Complex64, ccomplex(constF32(constReal(c)), constF32(constImag(c))))
+//@   ensures complex128-parts-rounded-once: isC && constKind(c) == 5 && k == reflect.Complex128 ==> rvComplex(n.rval) == croundKind(reflect.Complex128, ccomplex(constF64(constReal(c)), constF64(constImag(c))))
+//@   ensures integer-exact: isC && constKind(c) == 3 && isIntKind(k) && inRangeK(k, constInt(c)) && inRangeK(6, constInt(c)) ==> rvInt(n.rval) == constInt(c)
+//@   ensures not-a-constant-untouched: !isC ==> n.rval == old(n.rval)
+//@   canary isC && constKind(c) == 4 && k == reflect.Float32 ==> rvFloat(n.rval) == constF64(c)
+
+// Representability at the places where an untyped constant is given a type.
+// representable: no error means the constant fits the target type (representableConst above);
+// convertUntyped: for a basic target type the constant was checked by representable before it is
+// converted.
+//@ pred isC(v): v.IsValid() && assertok_go_constant_Value(rvIface(v))
+//@ pred cOf(v): assert_go_constant_Value(rvIface(v))
+//@ func (check typecheck) representable(n, t) (err)
+//@   props C03
+//@   opt safety = off
+//@   opt opaque-calls = *
+//@   opt opaque-havoc = none
+//@   requires [assume] n != nil
+//@   ensures no-error-means-representable: err == nil && isC(n.rval) ==> representableConst(cOf(n.rval), t)
+//@   ensures node-untouched: n.rval == old(n.rval) && n.typ == old(n.typ)
+//@   canary err == nil
+
+//@ func isNumber(t) (r)
+//@   props C03
+//@   pure
+//@   opt safety = off
+//@   ensures r == (t != nil && (isIntKind(t.Kind()) || isFloatKind(t.Kind()) || isComplexKind(t.Kind())) || isConstantValue(t))
+//@ pred basicTarget(typ): isNumber(typ.TypeOf()) || isString(typ.TypeOf()) || isBoolean(typ.TypeOf())
+//@ func (check typecheck) convertUntyped(n, typ) (err)
+//@   props C03
+//@   opt safety = off
+//@   opt opaque-calls = *
+//@   opt opaque-havoc = none
+//@   opt inline = isNil
+//@   requires [assume] n != nil
+//@   ensures basic-target-checked: err == nil && old(n.typ != nil && n.typ.untyped && n.typ.cat != nilT) && typ != nil && !typ.untyped && basicTarget(typ) && old(isC(n.rval)) ==> representableConst(old(cOf(n.rval)), typ.TypeOf())
+//@   ensures typed-node-untouched: old(n.typ == nil || !n.typ.untyped) ==> err == nil && n.rval == old(n.rval) && n.typ == old(n.typ)
+//@   canary err == nil ==> n.typ == typ
+
+// return statement (cfg.go, post-order case returnStmt): every returned untyped constant is checked for
+// representability in the declared result type (non-interface results) before the function is accepted.
+// Per-iteration contract of the loop over the returned expressions (each child is handled by exactly
+// one iteration of the range loop).
+//@ trusted func isInterface(t) (r)
+//@   pure
+//@ lit Interpreter.cfg case:returnStmt () ()
+//@   props C03
+//@   opt safety = off
+//@   opt opaque-calls = *
+//@   opt opaque-havoc = none
+//@   loop 2
+//@   step constant-result-representable: err == nil && old(c.typ != nil && c.typ.untyped && c.typ.cat != nilT && isC(c.rval)) && typ != nil && !typ.untyped && !isInterface(typ) && basicTarget(typ) ==> representableConst(old(cOf(c.rval)), typ.TypeOf())
+
+// genValueAs (value.go): the operand as a value of type t (returned untyped constants, string range
+// values, append arguments).  A constant operand is converted as a constant: exact value, rounded once
+// to t's precision, and every numeric constant converts to a complex or float target.
+//@ func genValueAs(n, t) (r)
+//@   props C03
+//@   ints math
+//@   opt gen = true
+//@   opt safety = off
+//@   opt opaque-calls = genValue
+//@   opt opaque-havoc = none
+//@   requires [assume] n != nil && t != nil
+//@   requires [assume] dynamic-type-test: isConstantValue(n.rval.Type()) == assertok_go_constant_Value(rvIface(n.rval))
+//@   result-fn (f) (v)
+//@   fn-ensures float32-rounded-once: isC(n.rval) && t.Kind() == reflect.Float32 ==> rvFloat(v) == constF32(constToFloat(cOf(n.rval)))
+//@   fn-ensures float64-rounded-once: isC(n.rval) && t.Kind() == reflect.Float64 ==> rvFloat(v) == constF64(constToFloat(cOf(n.rval)))
+//@   fn-ensures complex64-from-any-numeric-constant: isC(n.rval) && t.Kind() == reflect.Complex64 ==> rvComplex(v) == croundKind(reflect.Complex64, ccomplex(constF32(constReal(cOf(n.rval))), constF32(constImag(cOf(n.rval)))))
+//@   fn-ensures complex128-from-any-numeric-constant: isC(n.rval) && t.Kind() == reflect.Complex128 ==> rvComplex(v) == croundKind(reflect.Complex128, ccomplex(constF64(constReal(cOf(n.rval))), constF64(constImag(cOf(n.rval)))))
